@@ -328,6 +328,7 @@ pub enum EvK {
     DlCount { delta: u64 },
     Spawned { actor: usize, raw: u64, cap_reported: i32 },
     SpawnPanic { actor: usize, msg: String },
+    LockPoisoned { poisoned: bool },
     /// a handle slot changed: what it now holds ("none" = emptied) and which actor it refers to
     Slot { holder: Holder, slot: u8, kind: String, target: Option<usize> },
 }
